@@ -580,7 +580,9 @@ func (v viewField) load() Val {
 		switch v.field {
 		case 0:
 			et := c.naturalType(v.base).Underlying().(*types.Slice).Elem()
-			return Val{T: v.vt, P: &Path{Kind: rootArr, T: et, Ref: fmt.Sprintf("(sbase %s)", cur), Steps: []Step{{IsIdx: true, Idx: fmt.Sprintf("(xoff %s)", cur)}}}}
+			off := fmt.Sprintf("(xoff %s)", cur)
+			return Val{T: v.vt, P: &Path{Kind: rootArr, T: et, Ref: fmt.Sprintf("(sbase %s)", cur), Steps: []Step{{IsIdx: true, Idx: off, Raw: true}},
+				Lo: off, Hi: c.idxAdd(off, fmt.Sprintf("(xcap %s)", cur))}}
 		case 1:
 			return Val{T: v.vt, S: fmt.Sprintf("(xlen %s)", cur)}
 		case 2:
@@ -589,7 +591,9 @@ func (v viewField) load() Val {
 	case "string":
 		switch v.field {
 		case 0:
-			return Val{T: v.vt, P: &Path{Kind: rootStrArr, Ref: fmt.Sprintf("(sarr %s)", cur), Steps: []Step{{IsIdx: true, Idx: fmt.Sprintf("(soff %s)", cur)}}}}
+			off := fmt.Sprintf("(soff %s)", cur)
+			return Val{T: v.vt, P: &Path{Kind: rootStrArr, Ref: fmt.Sprintf("(sarr %s)", cur), Steps: []Step{{IsIdx: true, Idx: off, Raw: true}},
+				Lo: off, Hi: c.idxAdd(off, fmt.Sprintf("(slen %s)", cur))}}
 		case 1:
 			return Val{T: v.vt, S: fmt.Sprintf("(slen %s)", cur)}
 		}
